@@ -55,6 +55,8 @@ class ValueIteration(Plans):
             action_values,
             np.max(action_values, axis=-1, keepdims=True),
         )
+        # never put mass on unavailable actions (dead ends keep all actions)
+        policy_matrix &= mdp.action_matrix.astype(bool) | mdp.dead_end_state_vec[:, None]
         policy_matrix = policy_matrix/policy_matrix.sum(-1, keepdims=True)
         single_action_states = mdp.action_matrix.sum(-1) == 1
         policy_matrix[single_action_states] = mdp.action_matrix[single_action_states]
